@@ -13,7 +13,16 @@ Import ListNotations.
 (* --- what the callable receives (for any callable) --- *)
 
 (* the arguments are lists of strings by construction (arg_lists : list (list string));
-   a missing cell is passed as its string rendering *)
+   a missing cell is passed as its string rendering.
+   NOTE: "called only with lists of Python strings, never a float or None" is a TYPING fact of
+   the model, not a theorem about mapper.py: a regression such as `ser.astype(str).tolist()`
+   (which leaves float NaN in the list under pandas 3) cannot be expressed in Coq.  For the
+   real code this clause is OBSERVED on every run by harness/c16.py: the recording stubs keep
+   the raw argument objects and the oracle requires `type(args) is list` and
+   `type(x) is str` for every element of every call (keys nonlist-arg:STYPE, nonstr-arg:STYPE).
+   Likewise c16_embedder_calls / c16_tokenizer_calls unfold the definition of arg_lists (the
+   Python loop `for i in range(0, len(ser_list), bs): ser_list[i:i+bs]` is modelled by its
+   specification Chunks.chunks); the tie to the code is the correspondence on recorded calls. *)
 Theorem c16_missing_is_rendered :
   render CNone = "None"%string /\ render CNaN = "nan"%string /\ render CNA = "<NA>"%string.
 Proof. exact render_missing. Qed.
